@@ -3,8 +3,10 @@ CONSTANTS
   Accounts <- Acc4
   Denoms <- Den2
   CoinLists <- ListsT
+  MetaDenoms = {"d1"}
+  MetaVals = {"m1", "m2"}
   Cap = 3
 VIEW view
 INVARIANTS TypeOK Conservation
-PROPERTIES FailExactly MovesExactly SupplyExactly
+PROPERTIES FailExactly MovesExactly SupplyExactly MetaFrame
 CHECK_DEADLOCK FALSE
